@@ -20,7 +20,7 @@
 //        SYNCHRONOUS (reset logic initialises the memory after postprocessing) / N = NONE
 //
 // out-file, per case:
-//   M <echo> | L=<read latency used> abits=<address pin width> init=<w0,w1,..> (declared contents, MSB first, X = undefined)
+//   M <echo> | L=<read latency used> abits=<address pin width> words=<w0,w1,..> (declared contents, MSB first, X = undefined)
 //   p A <a..> W <en din ..> O <out..>     the cycle(s) executed with the idle inputs while leaving reset (outputs informative)
 //   c A <a..> W <en din ..> O <out..> [P <addr>:<enable>:<wrEnable> ..]
 //                                          one line per clock cycle: pin values of the cycle, read data pins sampled at its end;
@@ -293,7 +293,7 @@ void runCase(const Case &cs, std::ostream &out)
 		}
 	}
 
-	out << "M " << cs.line << " | L=" << L << " abits=" << abits << " init=";
+	out << "M " << cs.line << " | L=" << L << " abits=" << abits << " words=";
 	for (size_t i = 0; i < depth; i++) out << (i ? "," : "") << initWords[i];
 	out << "\n";
 
@@ -384,7 +384,7 @@ int main(int argc, char **argv)
 			std::string w = e.what();
 			for (auto &ch : w) if (ch == '\n' || ch == '\r') ch = ' ';
 			if (w.size() > 400) w.resize(400);
-			out << "M " << c.line << " | L=? abits=? init=?\n";
+			out << "M " << c.line << " | L=? abits=? words=?\n";
 			out << "X " << c.get("id") << " " << w << "\n";
 		}
 		out.flush();
